@@ -60,6 +60,8 @@ def check_grid(run, pkg, ndim):
     # the store that fills grid positions: target grid[n, indice] with a list of per-axis coordinates
     cands = [e for e in stores(it) if e.data["value"][0] in ("list", "tuple") and len(e.data["value"][1]) == ndim
              and e.data["target"][2][0] == "tuple" and len(e.data["target"][2][1]) == 2]
+    if not cands and check_grid_meshgrid(run, it, fq, ndim):
+        return
     if len(cands) != 1:
         raise AnalysisError(f"{fq}: expected one grid-position store for ndim={ndim}, found {len(cands)}")
     ev = cands[0]
@@ -164,6 +166,69 @@ def check_grid(run, pkg, ndim):
         okc = shp[1] == ("call", "numpy.prod", (ng,), ()) and shp[0] == ("attr", ("sym", "snapshots"), "nsnapshots")
         run.ob("R-LINEAR", fq, f"{ndim}D:capacity", okc, "grid array has nsnapshots x prod(ngrids) rows", show(gp)[:100],
                witness=None if okc else "row count differs from the number of grid points", loc=loc_of(it, ev))
+
+
+def check_grid_meshgrid(run, it, fq, ndim):
+    """Vectorised grid construction: grid[n] = stack(meshgrid(*axes, indexing='ij'), axis=-1).reshape(-1, ndim)."""
+    fi = it.fi
+    ng = ("sym", "ngrids")
+    cands = [e for e in stores(it) if any(x[0] == "call" and x[1] == "numpy.meshgrid" for x in walk(e.data["value"]))]
+    if len(cands) != 1:
+        return False
+    ev = cands[0]
+    loc = loc_of(it, ev)
+    val = ev.data["value"]
+    mg = [x for x in walk(val) if x[0] == "call" and x[1] == "numpy.meshgrid"][0]
+    # layout
+    idx = kw(mg, "indexing")
+    form = None
+    if val[0] == "call" and val[1] == ".reshape" and val[2][0][0] == "call" and val[2][0][1] == "numpy.stack" and kw(val[2][0], "axis", 1) == C(-1) and val[2][0][2][0] == mg \
+            and val[2][1] == C(-1):
+        form = "stack-last-axis + reshape(-1, d)"
+    elif val[0] == "call" and val[1] == "numpy.column_stack" and val[2] and val[2][0][0] == "comp" and val[2][0][3][0][1] == mg and \
+            val[2][0][2] in (("call", ".ravel", (val[2][0][3][0][0],), ()), ("call", ".flatten", (val[2][0][3][0][0],), ())):
+        form = "column_stack of raveled axes"
+    if form is None:
+        run.ob("R-LINEAR", fq, f"{ndim}D:flat-index", None, "grid layout recognised", show(val)[:120], loc=loc)
+        return True
+    okij = idx == C("ij")
+    run.ob("R-LINEAR", fq, f"{ndim}D:flat-index", okij, f"{ndim}D grid points are laid out row-major with x slowest (meshgrid indexing='ij' flattened in C order)", f"{form}, indexing={show(idx) if idx else 'xy (default)'}",
+           witness=None if okij else "ngrids=(2, 3): with the default 'xy' indexing the first two axes are swapped, point k is not (i, j) with k = i*3 + j", loc=loc)
+    # axes
+    ax = mg[2][0] if mg[2] else None
+    lst = ax[1] if ax is not None and ax[0] == "star" else None
+    bounds_of = None
+    okax = False
+    if lst is not None and lst[0] == "comp" and len(lst[3]) == 1 and not lst[3][0][2]:
+        d, src, _ = lst[3][0]
+        elt = lst[2]
+        okdom = src in (("call", "builtins.range", (("call", "builtins.len", (ng,), ()),), ()),
+                        ("call", "builtins.range", (("sub", ("attr", ("attr", ("sub", ("attr", ("sym", "snapshots"), "snapshots"), C(0)), "positions"), "shape"), C(1)),), ()))
+        if elt[0] == "call" and elt[1] == "numpy.linspace" and len(elt[2]) >= 3:
+            lo, hi, num = elt[2][:3]
+            if lo[0] == "sub" and hi[0] == "sub" and lo[1] == hi[1] and lo[2] == ("tuple", (d, C(0))) and hi[2] == ("tuple", (d, C(1))) and num == ("sub", ng, d):
+                okax = okdom
+                bounds_of = lo[1]
+    elif lst is None and mg[2] and all(a[0] == "call" and a[1] == "numpy.linspace" for a in mg[2]):
+        okax = len(mg[2]) == ndim
+        for c, a in enumerate(mg[2]):
+            lo, hi, num = a[2][:3]
+            okax = okax and lo[0] == "sub" and hi[0] == "sub" and lo[1] == hi[1] and lo[2] == ("tuple", (C(c), C(0))) and hi[2] == ("tuple", (C(c), C(1))) and num == ("sub", ng, C(c))
+            bounds_of = lo[1] if lo[0] == "sub" else None
+    for c in range(ndim):
+        run.ob("R-ALG", fq, f"{ndim}D:axis{c}", okax, f"coordinate {c} of a grid point is linspace(bounds[{c},0], bounds[{c},1], ngrids[{c}])", show(ax)[:120] if ax else "?",
+               witness=None if okax else "an axis uses bounds/count of another axis", loc=loc)
+    # which frame's bounds, stored for which frame
+    tgt = ev.data["target"][2]
+    in_loop = [it.loops[l] for l in ev.loops]
+    ok_slot = False
+    detail = f"target [{show(tgt)[:40]}], bounds {show(bounds_of)[:60] if bounds_of else '?'}"
+    if in_loop and in_loop[0].iter == ("call", "builtins.enumerate", (("attr", ("sym", "snapshots"), "snapshots"),), ()):
+        n_term, snap = ("elem", in_loop[0].target, 0), ("elem", in_loop[0].target, 1)
+        ok_slot = tgt == n_term and bounds_of == ("attr", snap, "boxbounds")
+    run.ob("R-IDX", fq, f"{ndim}D:frame-slot", ok_slot, "the grid of frame n spans the box bounds of frame n and is stored in row n", detail,
+           witness=None if ok_slot else "box bounds change between frames (constant-pressure run): frame 1 is evaluated on frame 0's grid", loc=loc)
+    return True
 
 
 def check_gaussian(run, pkg):
